@@ -393,8 +393,8 @@ def _judge_mode(mode, r, enc, t, out, count_probes):
             allowed.append(ch)            # (a byte that is both a table entry and a character may be reported as either)
         if not allowed:
             continue                      # no name is prescribed for this sequence in this naming mode
-        if b in table and not is_char:
-            allowed = [table[b]]
+        if b in table and (not is_char or b[0] < 0x80):
+            allowed = [table[b]]      # (a 7-bit table entry - Ctrl keys, space, tab, backspace - has a name: use it)
         if items[i] not in allowed:
             return {"invariant": "keypress_misnamed", "step": i,
                     "detail": {"mode": mode, "bytes": repr(b), "returned": repr(items[i]), "allowed": [repr(x) for x in allowed],
